@@ -5,7 +5,8 @@ CLAIM = {
  'text': ('Lean 4 theorems about a model of BIT/ReadBIT.py (TIF block walker, 276-byte header block, add_block '
           'de-interleave, the two IBM-float decoders, X axis synthesis): bit_roundtrip (for every content of 1..n log '
           'passes, 1..20 channels, any blocks incl. a short last one, the reader applied to the spec encoder\'s file '
-          'returns the names, counts, header numbers, the frame words in channel/frame order and the synthesised X axis), '
+          'returns the names, counts, header numbers, the frame words in channel/frame order and the synthesised X axis; '
+          'bit_roundtrip_one_end_marker for the file without the final marker; mkBlocks_spec for blocks of fib frames), '
           'frame_count, x_axis, ibm_header_eq_isingl (header decoder = RP66V1 ISINGL on every word), '
           'gen_floats_rel_error / gen_floats_ne (the frame decoder as coded is NOT the IBM value: exact factor '
           '2^24/(2^24-1), known finding F12). The model is tied to the source on every run by comparing it with the real '
@@ -626,8 +627,16 @@ def stream_malformed(ctx, R):
     dec = ctx.lean(['dec ' + hx(d) for _, d in items])
     classes = {}
     for (label, data), m in zip(items, dec):
-        out, _ = impl_read(R, data)
+        out, fas = impl_read(R, data)
         ctx.corr('malformed', {'op': 'bytes', 'label': label, 'hex': data.hex()}, out, m)
+        if fas is not None:
+            # whatever the bytes: a frame array that is returned is rectangular and as long as the reported frame count
+            ctx.count('oracle_cases')
+            for p in fas:
+                if p.frame_array is not None and any(len(c.array) != p.frame_count for c in p.frame_array.channels):
+                    ctx.fail({'op': 'bytes', 'label': label, 'hex': data.hex()},
+                             f'pass {p.ident}: frame_count {p.frame_count} but channel lengths {[len(c.array) for c in p.frame_array.channels]}')
+                    break
         cls = out.split(' ')[0] + ' ' + (out.split(' ')[1] if out.startswith('err') else '')
         classes[cls] = classes.get(cls, 0) + 1
         ctx.nontriv(('malformed', label, cls))
@@ -682,8 +691,11 @@ def replay(ctx, rec):
                 return False, f'bytes {w.hex()}: gen_floats {g!r}, bytes_to_float {h!r}, IBM value {e!r}'
             return True, f'bytes {w.hex()} decode to {e!r} in both decoders'
         if case.get('op') == 'bytes':
-            out, _ = impl_read(R, bytes.fromhex(case['hex']))
-            return True, f'result now: {out[:200]} (correspondence case, recorded: {rec.get("detail")})'
+            out, fas = impl_read(R, bytes.fromhex(case['hex']))
+            for p in fas or []:
+                if p.frame_array is not None and any(len(c.array) != p.frame_count for c in p.frame_array.channels):
+                    return False, f'pass {p.ident}: frame_count {p.frame_count} but channel lengths {[len(c.array) for c in p.frame_array.channels]}'
+            return True, f'result now: {out[:200]} (recorded: {rec.get("detail")})'
         return True, 'nothing to replay (no concrete failing input was recorded)'
     finally:
         logging.disable(logging.NOTSET)
